@@ -176,19 +176,24 @@ pub fn compare_archives<P: AsRef<Path>>(
         filter,
     )?;
 
+    // A file can show up in more than one difference list (e.g. size and content),
+    // so count distinct names; subtracting the list lengths underflowed.
+    let different_names: HashSet<&str> = files
+        .size_differences
+        .iter()
+        .map(|d| d.name.as_str())
+        .chain(files.content_differences.iter().map(String::as_str))
+        .chain(files.metadata_differences.iter().map(|d| d.name.as_str()))
+        .collect();
+
     // Generate summary
     let summary = ComparisonSummary {
         source_files: metadata.file_count.0,
         target_files: metadata.file_count.1,
         source_only_count: files.source_only.len(),
         target_only_count: files.target_only.len(),
-        different_files: files.size_differences.len()
-            + files.content_differences.len()
-            + files.metadata_differences.len(),
-        identical_files: files.common_files.len()
-            - files.size_differences.len()
-            - files.content_differences.len()
-            - files.metadata_differences.len(),
+        different_files: different_names.len(),
+        identical_files: files.common_files.len() - different_names.len(),
     };
 
     // Determine if archives are identical
